@@ -119,10 +119,13 @@ ConcBad ==
   \o (IF ~CommonOrder(st.log, st.nprobe) THEN <<"C10:order">> ELSE <<>>)
 
 (* one line per maximal schedule *)
+(* when every thread has finished the epilogue of the case runs on one thread (e.g. the executor is run to idle) *)
+Final == IF AllDone /\ st.fault = "" THEN RunSetup([st EXCEPT !.cur = 0, !.callno = 0], C.post) ELSE st
 EmitLine ==
   Maximal =>
-    PrintT(ToJson([c |-> case, sched |-> sched, bad |-> ConcBad, stuck |-> Stuck, fault |-> st.fault,
-                   overlap |-> st.overlap, log |-> st.log, cnt |-> st.cnt, pcre |-> st.pcre, hcre |-> st.hcre, tcre |-> st.tcre,
+    LET fin == Final IN
+    PrintT(ToJson([c |-> case, sched |-> sched, bad |-> ConcBad, stuck |-> Stuck, fault |-> fin.fault,
+                   overlap |-> fin.overlap, log |-> fin.log, cnt |-> fin.cnt, pcre |-> fin.pcre, hcre |-> fin.hcre, tcre |-> fin.tcre,
                    rets |-> [t \in 1..NT |-> thr[t].rets]]))
 
 NoSpecFault == st.fault = "" \/ st.fault = "reentry"
